@@ -1334,6 +1334,13 @@ func TestC16WordRuns(t *testing.T) {
 	} else {
 		cases = append(cases, Case16L{Run: n31 + 2, B: 0x80}, Case16L{Run: n31 + 2, B: 0xff, Tail: "006162636465"})
 	}
+	if shard == shards-1 {
+		maxRun := 0
+		for _, c := range cases {
+			maxRun = max(maxRun, c.Run)
+		}
+		ReserveLong(8 + maxRun + 64) // one allocation for all the huge cases
+	}
 	ran, huge := int64(0), int64(0)
 	for i, c := range cases {
 		// the small cases are dealt round robin; the huge ones (one arena of hundreds of MB) all belong to the last shard
@@ -1531,6 +1538,9 @@ func record15G(c Case15G, info Info15G) {
 // strings / strings and two numbers, in source allocations of 64 bytes .. 64 KiB (the encoding at the start or behind 16
 // bytes, no / 64 KiB spare capacity), all decoded values kept - and, for the lists of two and more, each one kept alone.
 func TestC15LivenessExhaustive(t *testing.T) {
+	// every case asks for several full collections: with one processor a collection involves no other thread, which
+	// keeps its cost at a millisecond on a loaded machine too (the verdict does not depend on it)
+	defer runtime.GOMAXPROCS(runtime.GOMAXPROCS(1))
 	st := vstat.For("C15")
 	shard, shards := vstat.Shard()
 	alphabet := []Item{
@@ -1620,6 +1630,7 @@ func genCase15G(t *rapid.T) Case15G {
 }
 
 func TestC15RapidLiveness(t *testing.T) {
+	defer runtime.GOMAXPROCS(runtime.GOMAXPROCS(1)) // see TestC15LivenessExhaustive
 	st := vstat.For("C15")
 	rapid.Check(t, func(t *rapid.T) {
 		c := genCase15G(t)
@@ -1877,6 +1888,7 @@ func TestReplay(t *testing.T) {
 		if _, err := vstat.LoadReplay(p, &c); err != nil {
 			t.Fatalf("cannot load %s: %v", p, err)
 		}
+		defer runtime.GOMAXPROCS(runtime.GOMAXPROCS(1))
 		info, v := Run15G(c)
 		vstat.For("C15").Report(t, "TestReplay", c, v)
 		record15G(c, info)
